@@ -54,7 +54,7 @@ inline Profile base_profile(int prop, bool thorough)
             set({{OP_DEFAULT_CONSTRUCT, 1}, {OP_POP_BACK, 5}, {OP_ERASE, 10}, {OP_ERASE_RANGE, 6}, {OP_CLEAR, 3},
                  {OP_RESERVE, 8}, {OP_COPY_CONSTRUCT, 4}, {OP_MOVE_CONSTRUCT, 3}, {OP_COPY_ASSIGN, 6},
                  {OP_MOVE_ASSIGN, 6}, {OP_SWAP, 3}, {OP_ELEM_CONSTRUCT, 5}, {OP_ELEM_COPY, 3}, {OP_ELEM_ASSIGN, 4},
-                 {OP_ELEM_SWAP, 1}, {OP_ELEM_DESTROY, 2}, {OP_REF_ASSIGN, 2}, {OP_REF_SWAP, 1}, {OP_ELEM_TO_REF, 1},
+                 {OP_ELEM_SWAP, 1}, {OP_ELEM_DESTROY, 2}, {OP_REF_ASSIGN, 4}, {OP_REF_SWAP, 1}, {OP_ELEM_TO_REF, 1},
                  {OP_REF_TO_ELEM, 1}, {OP_DESTROY, 4}});
             break;
         case C08:
